@@ -452,7 +452,14 @@ def o_c18_post(w, args):
         return None          # the requested name was already in use
     if out.startswith('err'):
         return '[%s/raises] `%s` gave %s' % (g, line, out)
+    if 'result-is-not-the-target' in out:
+        return '[%s/not-into-target] `%s` was given a complex to build into and returned another one' % (g, line)
     after = _record(c)
+    import builtins
+    old_dicts = {builtins.id(c[s]): tok(s) for s in c.simplices() if tok(s) in st['rec']}
+    for s in c.simplices():
+        if tok(s) not in st['rec'] and builtins.id(c[s]) in old_dicts:
+            return '[%s/shares-attributes] the new simplex %s uses the attribute dictionary of the pre-existing simplex %s' % (g, tok(s), old_dicts[builtins.id(c[s])])
     for nme, r in before.items():
         if after.get(nme) != r:
             return '[%s/modifies-target] pre-existing simplex %s: %r -> %r' % (g, nme, r, after.get(nme))
